@@ -138,7 +138,10 @@ class C16(Property):
         "reads": [W.weighted("rk", [(3, 1), (2, 2), (1, 5), (1, 0)])
                   for _ in range(W.span("nreads", 1, 8))]}
     long_run = W.chance("long", 1, 40)
+    crowd = not long_run and W.chance("crowd", 1, 12)
     nev = W.span("nev", 0, 6) if not long_run else 2000 + W.choose("x", 500)
+    if crowd:
+      nev = W.span("ncrowd", 9, 14)    # many events playing at once
     events = []
     for i in range(nev):
       if long_run:
@@ -146,8 +149,14 @@ class C16(Property):
         ln = W.choose("llen", 3)
         events.append({"delta": d, "len": ln, "box": "list"})
         continue
+      if crowd:
+        d = W.pick("cdelta", [0, 0, 0, 1, 0.5, 0.25])
+        ln = W.weighted("clen", [(1, 0), (2, 1), (2, 2), (2, 3), (2, 5),
+                                 (1, 8)])
+        events.append({"delta": d, "len": ln, "box": "list"})
+        continue
       d = W.pick("delta", DELTAS) if not W.chance("big", 1, 10) \
-        else W.pick("bigd", [10, 12.5, 20.75, 9.99])
+        else W.pick("bigd", [10, 12.5, 20.75, 9.99, 100.5, 333.25])
       ln = W.weighted("len", [(1, 0), (2, 1), (3, 2), (2, 4), (1, 7)])
       events.append({"delta": d, "len": ln, "box": W.pick("box", CONTAINERS)})
     demands = [W.weighted("dk", [(3, 1), (3, 2), (2, 4), (1, 9), (1, 0)])
